@@ -180,6 +180,8 @@ func (e *Encoder) writeValue(val reflect.Value, tagType byte) error {
 				if err != nil {
 					return err
 				}
+			} else {
+				str = []byte(val.String())
 			}
 		} else {
 			str = []byte(val.String())
